@@ -215,3 +215,9 @@ rule:
     test_rule_match(yaml, "a();a(123);a();a(123)");
   }
 }
+
+#[cfg(feature = "verif-hooks")]
+pub mod verif_hooks {
+  pub use crate::rule::verif_hooks::*;
+  pub use crate::transform::verif_hooks::*;
+}
